@@ -4,6 +4,7 @@ import (
 	"bytes"
 	"encoding/gob"
 	"fmt"
+	"math"
 	"math/big"
 	"math/rand"
 	"time"
@@ -68,7 +69,18 @@ func (s *badgerStore) CheckAndSaveNonce(ID string, nonce int64) error {
 		}
 
 		if s.nonceExpire > 0 {
-			return setExpiringItem(txn, key, &nonce, s.nonceExpire)
+			// The saved nonce must outlive every request it can still
+			// invalidate: until nonceExpire after the nonce's own timestamp
+			// (not after now), rounded up because badger expires entries at
+			// whole seconds.
+			ttl := time.Until(time.Unix(0, nonce).Add(s.nonceExpire))
+			if ttl < math.MaxInt64-time.Second {
+				ttl += time.Second
+			}
+			if ttl < s.nonceExpire {
+				ttl = s.nonceExpire
+			}
+			return setExpiringItem(txn, key, &nonce, ttl)
 		}
 		return setItem(txn, key, &nonce)
 	})
